@@ -312,8 +312,19 @@ func (h *H) open() error {
 		}
 	case "store":
 		so, po := h.storeOptions()
-		s, c, err := moss.OpenStoreCollection(h.dir, so, po)
+		// The store is opened with options of its own (OpenStore + Store.OpenCollection is what
+		// OpenStoreCollection does): DeferredSort is a matter of the collection, so the store's copy
+		// does not carry it - whatever the store does with a segment stack handed to it must not
+		// depend on the store having been told how the collection builds its batches.
+		soStore := so
+		soStore.CollectionOptions.DeferredSort = false
+		s, err := moss.OpenStore(h.dir, soStore)
 		if err != nil {
+			return err
+		}
+		c, err := s.OpenCollection(so, po)
+		if err != nil {
+			s.Close()
 			return err
 		}
 		h.store, h.coll = s, c
